@@ -161,6 +161,12 @@ func (e *FieldExpression) Evaluate(ctx *Context, input system.Collection) (syste
 			fieldName = fieldName + "_value"
 			field = reflect.Descriptor().Fields().ByName(protoreflect.Name(fieldName))
 			if field == nil {
+				// FHIR element names are the JSON names of the proto fields; this finds
+				// the names that do not survive a camelCase/snake_case round trip
+				// (lethalDose50, gtFP, requestURL...).
+				field = reflect.Descriptor().Fields().ByJSONName(e.FieldName)
+			}
+			if field == nil {
 				return nil, fmt.Errorf("%w: %s not a field on %T", ErrInvalidField, fieldName, message)
 			}
 		}
@@ -227,7 +233,7 @@ func (e *FieldExpression) isEvaluable(msg proto.Message) bool {
 
 	// Prevent snake_case fields, since all FHIRPath fields need to be in
 	// camelCase.
-	if strcase.ToLowerCamel(e.FieldName) != e.FieldName {
+	if strcase.ToLowerCamel(e.FieldName) != e.FieldName && msg.ProtoReflect().Descriptor().Fields().ByJSONName(e.FieldName) == nil {
 		return false
 	}
 
